@@ -21,10 +21,11 @@ const (
 	abSolver                // solver answered unknown / error: inconclusive
 	abStop                  // harness asked to stop the path (after a violation)
 	abDeadlock              // all threads blocked
+	abPruned                // schedule redundant by sleep-set reduction
 )
 
 func (k abortKind) String() string {
-	return [...]string{"none", "infeasible", "unsupported", "budget", "solver-unknown", "stop", "deadlock"}[k]
+	return [...]string{"none", "infeasible", "unsupported", "budget", "solver-unknown", "stop", "deadlock", "pruned"}[k]
 }
 
 // pathAbort is the Go panic payload that unwinds a whole path.
@@ -97,6 +98,7 @@ type path struct {
 	decided     map[*Term]bool
 	races       map[string]bool
 	envVars     map[string]bool
+	sleep       map[int][]interface{}
 	obsVals     [][]value
 	obsTags     []string
 	obsStrs     []string
@@ -119,7 +121,7 @@ type explorer struct {
 	cfg      *harnessCfg
 
 	// aggregated results
-	paths, completed, infeasible, nontrivial int
+	paths, completed, infeasible, nontrivial, pruned int
 	states, transitions                      int
 	obligations, discharged                  int
 	violations                               []violation
@@ -462,6 +464,8 @@ func (e *explorer) merge(p *path, w *worker, outcome string, steps int64) {
 		}
 	case "infeasible":
 		e.infeasible++
+	case "pruned":
+		e.pruned++
 	}
 	e.obligations += p.obligations
 	e.discharged += p.discharged
